@@ -103,15 +103,13 @@ func (c *Classifier) match(in io.Reader) (Results, error) {
 		}
 	}
 
-	if len(firstPass) == 0 {
-		return Results{
-			Matches:         nil,
-			TotalInputLines: 0,
-		}, nil
+	// With no document left there is nothing to search for, but the copyright
+	// notices found while tokenizing and the line count are still reported: they
+	// must not depend on what else happens to be in the corpus.
+	if len(firstPass) > 0 {
+		// Perform the expensive work of generating a searchset to look for token runs.
+		id.generateSearchSet(c.q)
 	}
-
-	// Perform the expensive work of generating a searchset to look for token runs.
-	id.generateSearchSet(c.q)
 
 	var candidates Matches
 	candidates = append(candidates, id.Matches...)
